@@ -160,3 +160,210 @@ Theorem C01_token_guarantee_host : forall h f hn src url host e k,
   covered h (probes h src url) f.
 Proof. exact token_guarantee_host. Qed.
 Print Assumptions C01_token_guarantee_host.
+
+(* ------------------------------------------------------------------ the token guarantee for
+   REGEX-TYPE patterns (filter texts with '*' and/or '^', IS_REGEX set, not /re/ rules; no hostname,
+   no domain option, both schemes).  [C02_Model.search la ra (C02_Model.toks s) url] is what
+   check_pattern_regex_filter computes for the rule (C02_matcher_spec, under the regex crate's
+   contract re_std).  Premises on the URL: [all_ascii url] (dropped: finding F4) and
+   [~ In STAR url] (dropped: F23); both are shown necessary by the two _refuted witnesses. *)
+From Adb Require Import Tok_Regex_Proofs.
+
+(* MAIN LEMMA: every token tokenize_filter keeps for a regex-type pattern (skip_first = not
+   left-anchored, skip_last = not right-anchored) is a whole token of every ASCII, '*'-free URL
+   that the pattern matches *)
+Theorem C01_regex_tokens_covered : forall la ra s u t,
+  C02_Model.search la ra (C02_Model.toks s) u = true ->
+  all_ascii u = true -> ~ In STAR u ->
+  In t (tku (negb la) (negb ra) s 0 None None) ->
+  In t (tku false false u 0 None None).
+Proof. exact regex_tokens_covered. Qed.
+Print Assumptions C01_regex_tokens_covered.
+
+(* without the ASCII premise the lemma is false (F4: /foo^ vs https://x.com/fooé) *)
+Theorem C01_regex_tokens_non_ascii_refuted :
+  exists la ra s u t,
+    C02_Model.search la ra (C02_Model.toks s) u = true /\ all_ascii u = false /\ ~ In STAR u /\
+    In t (tku (negb la) (negb ra) s 0 None None) /\ ~ In t (tku false false u 0 None None).
+Proof. exact regex_tokens_non_ascii_refuted. Qed.
+Print Assumptions C01_regex_tokens_non_ascii_refuted.
+
+(* without the no-'*' premise the lemma is false (F23: ads^foo| vs https://ads.net/ads*foo) *)
+Theorem C01_regex_tokens_star_in_url_refuted :
+  exists la ra s u t,
+    C02_Model.search la ra (C02_Model.toks s) u = true /\ all_ascii u = true /\ In STAR u /\
+    In t (tku (negb la) (negb ra) s 0 None None) /\ ~ In t (tku false false u 0 None None).
+Proof. exact regex_tokens_star_in_url_refuted. Qed.
+Print Assumptions C01_regex_tokens_star_in_url_refuted.
+
+(* the token guarantee for a regex-type rule *)
+Theorem C01_token_guarantee_regex : forall h f s src url,
+  Tok_Regex_Proofs.regex_rule f s ->
+  Tok_Regex_Proofs.regex_match f s url = true ->
+  all_ascii url = true -> ~ In STAR url ->
+  within_cutoff false false url ->
+  within_cutoff (negb (is_left_anchor f)) (negb (is_right_anchor f)) s ->
+  covered h (probes h src url) f.
+Proof. exact token_guarantee_regex. Qed.
+Print Assumptions C01_token_guarantee_regex.
+
+(* C02's model of check_pattern on such a rule is the token semantics of its text, given the regex
+   crate's contract for the rule's regex text *)
+Theorem C01_check_pattern_is_regex_match : forall re_ok re_match f s r,
+  Tok_Regex_Proofs.regex_rule f s -> flag f M_MATCH_CASE = false ->
+  C02_Model.re_std re_ok re_match
+    (C02_Model.translate s (is_left_anchor f) (is_right_anchor f))
+    (is_left_anchor f) (is_right_anchor f) (C02_Model.toks s) ->
+  C02_Model.no_nl (C02_Model.r_url r) = true ->
+  C02_Model.check_pattern re_ok re_match (rmask f) [s] None r
+  = Tok_Regex_Proofs.regex_match f s (lower_str (C02_Model.r_url r)).
+Proof. exact check_pattern_is_regex_match. Qed.
+Print Assumptions C01_check_pattern_is_regex_match.
+
+(* the token guarantee with the premise on the modelled code path check_pattern ->
+   check_pattern_regex_filter -> RegexManager::matches -> compile_regex *)
+Theorem C01_token_guarantee_regex_check_pattern : forall re_ok re_match h f s src r,
+  Tok_Regex_Proofs.regex_rule f s -> flag f M_MATCH_CASE = false ->
+  C02_Model.re_std re_ok re_match
+    (C02_Model.translate s (is_left_anchor f) (is_right_anchor f))
+    (is_left_anchor f) (is_right_anchor f) (C02_Model.toks s) ->
+  C02_Model.no_nl (C02_Model.r_url r) = true ->
+  C02_Model.check_pattern re_ok re_match (rmask f) [s] None r = true ->
+  all_ascii (lower_str (C02_Model.r_url r)) = true -> ~ In STAR (lower_str (C02_Model.r_url r)) ->
+  within_cutoff false false (lower_str (C02_Model.r_url r)) ->
+  within_cutoff (negb (is_left_anchor f)) (negb (is_right_anchor f)) s ->
+  covered h (probes h src (lower_str (C02_Model.r_url r))) f.
+Proof. exact token_guarantee_regex_check_pattern. Qed.
+Print Assumptions C01_token_guarantee_regex_check_pattern.
+
+(* NEW FINDING (backslash in a regex-type pattern): the regex text of `foo\dbar^` contains the digit
+   class \d (so the crate's matcher accepts https://x.com/foo5bar/), the token semantics of the text
+   rejects that URL (re_std fails), and the rule's only index token "dbar" is not a token of the URL *)
+Theorem C01_regex_backslash_witness :
+  exists s u t,
+    C02_Model.no_backslash s = false /\
+    C02_Model.translate s false false = bs "foo\dbar(?:[^\w\d\._%-]|$)" /\
+    C02_Model.search false false (C02_Model.toks s) u = false /\
+    tokenize_filter s true true = [t] /\ ~ In t (tokenize u).
+Proof. exact regex_backslash_witness. Qed.
+Print Assumptions C01_regex_backslash_witness.
+
+(* TG is a theorem for lists whose matching rules are plain or regex-type *)
+Theorem C01_TG_plain_or_regex_list : forall h matches src url L,
+  within_cutoff false false url -> all_ascii url = true -> ~ In STAR url ->
+  Tok_Regex_Proofs.plain_or_regex_hits matches url L -> TG h matches (probes h src url) L.
+Proof. exact TG_plain_or_regex_list. Qed.
+Print Assumptions C01_TG_plain_or_regex_list.
+
+(* engine = rule-by-rule with NO token-guarantee premise, for lists whose matching rules are plain
+   or regex-type *)
+Theorem C01_engine_eq_rule_by_rule_plain_or_regex : forall h matches src url L T,
+  id_inj L -> within_cutoff false false url -> all_ascii url = true -> ~ In STAR url ->
+  Tok_Regex_Proofs.plain_or_regex_hits matches url L ->
+  blocker_check matches (probes h src url) (tags_with_set h (blocker_new h L) T) = spec_verdict matches L T.
+Proof. exact engine_eq_spec_plain_or_regex. Qed.
+Print Assumptions C01_engine_eq_rule_by_rule_plain_or_regex.
+
+Theorem C01_engine_eq_rule_by_rule_subset_plain_or_regex : forall h matches src url mr fc L T,
+  id_inj L -> within_cutoff false false url -> all_ascii url = true -> ~ In STAR url ->
+  Tok_Regex_Proofs.plain_or_regex_hits matches url L ->
+  blocker_check_p matches (probes h src url) mr fc (tags_with_set h (blocker_new h L) T)
+  = spec_verdict_p matches mr fc L T.
+Proof. exact engine_eq_spec_p_plain_or_regex. Qed.
+Print Assumptions C01_engine_eq_rule_by_rule_subset_plain_or_regex.
+
+(* ------------------------------------------------------------------ the WHOLE answer of
+   check_parameterised / get_csp_directives (Engine_Model.engine_check / engine_csp: index +
+   precedence combiner + C13 redirect choice and resource gate + C14 rewrite + C15 merge) against
+   the rule-by-rule reading.  [matches] is the per-rule matcher, L the loaded list, T the enabled
+   tags; no bucket, token or probe occurs on the right-hand sides. *)
+From Adb Require Import Engine_Model Engine_Proofs.
+From Adb Require C13_Model C14_Model C15_Model.
+From Coq Require Import ZArith.
+
+Theorem C01_unsupported_scheme_default : forall matches pr url st mr fc b,
+  engine_check matches pr false url st mr fc b = default_result.
+Proof. exact engine_unsupported. Qed.
+Print Assumptions C01_unsupported_scheme_default.
+
+Theorem C01_result_bits : forall h matches pr, In 0 pr -> forall url st L T, id_inj L -> TG h matches pr L ->
+  forall mr fc,
+  let r := engine_check matches pr true url st mr fc (tags_with_set h (blocker_new h L) T) in
+  {| v_matched := r_matched r; v_important := r_important r; v_exception := r_exception r; v_filter := r_filter r |}
+  = spec_verdict_p matches mr fc L T.
+Proof. exact engine_bits. Qed.
+Print Assumptions C01_result_bits.
+
+(* rewritten URL = the C14 rewrite of the request URL by the parameter names of exactly the
+   removeparam rules that match, none when an important rule matched *)
+Theorem C01_result_rewritten_url : forall h matches pr, In 0 pr -> forall url st L T, id_inj L -> TG h matches pr L ->
+  forall mr fc,
+  r_rewritten (engine_check matches pr true url st mr fc (tags_with_set h (blocker_new h L) T))
+  = C14_Model.rewritten_url (v_important (spec_verdict_p matches mr fc L T)) (spec_param_names matches L) url.
+Proof. exact engine_rewritten. Qed.
+Print Assumptions C01_result_rewritten_url.
+
+(* redirect = the data URL of a non-excepted offer of maximal priority among exactly the redirect
+   rules that match (which one among equal priorities is not specified) ... *)
+Theorem C01_result_redirect_some : forall h matches pr, In 0 pr -> forall url st L T, id_inj L -> TG h matches pr L ->
+  forall mr fc u,
+  r_redirect (engine_check matches pr true url st mr fc (tags_with_set h (blocker_new h L) T)) = Some u ->
+  exists name p, C13_Model.candidate (spec_redirects matches L) name p
+    /\ (forall n' p', C13_Model.candidate (spec_redirects matches L) n' p' -> (p' <= p)%Z)
+    /\ C13_Model.get_redirect_resource st name = Some u.
+Proof. exact engine_redirect_some. Qed.
+Print Assumptions C01_result_redirect_some.
+
+(* ... and there is none only if nothing is offered un-excepted, or the best offer's resource is
+   not loaded / not redirectable / needs a permission *)
+Theorem C01_result_redirect_none : forall h matches pr, In 0 pr -> forall url st L T, id_inj L -> TG h matches pr L ->
+  forall mr fc,
+  r_redirect (engine_check matches pr true url st mr fc (tags_with_set h (blocker_new h L) T)) = None ->
+  (forall name p, ~ C13_Model.candidate (spec_redirects matches L) name p)
+  \/ exists name p, C13_Model.candidate (spec_redirects matches L) name p
+       /\ (forall n' p', C13_Model.candidate (spec_redirects matches L) n' p' -> (p' <= p)%Z)
+       /\ C13_Model.get_redirect_resource st name = None.
+Proof. exact engine_redirect_none. Qed.
+Print Assumptions C01_result_redirect_none.
+
+(* CSP = the same directive set as the C15 merge over exactly the active csp rules that match *)
+Theorem C01_result_csp : forall h matches pr, In 0 pr -> forall rtype L T, id_inj L -> TG h matches pr L ->
+  C15_Model.same_policy (engine_csp matches pr rtype (tags_with_set h (blocker_new h L) T))
+                        (C15_Model.get_csp_for rtype (spec_csp_rules matches L T)).
+Proof. exact engine_csp_policy. Qed.
+Print Assumptions C01_result_csp.
+
+(* the three consumers depend only on the SET of delivered rules *)
+Theorem C01_rewrite_set_only : forall n1 n2 url,
+  (forall k, In k n1 <-> In k n2) -> C14_Model.apply_removeparam n1 url = C14_Model.apply_removeparam n2 url.
+Proof. exact apply_removeparam_set_only. Qed.
+Print Assumptions C01_rewrite_set_only.
+
+(* ------------------------------------------------------------------ translator tie: the control
+   structure of src/blocker.rs as extracted on this run (Generated.BlockerGen, written by
+   tools/gen_fragments/c01_blocker_structure.py) denotes the hand-written model *)
+From Coq Require Import String.
+From Adb Require Import Struct_Proofs.
+Import Generated.BlockerGen.
+
+Theorem C01_src_category_chain : forall f c e,
+  run_chain (pv_of f c e) new_chain = cat_name (category_of f).
+Proof. exact new_chain_is_category_of. Qed.
+Print Assumptions C01_src_category_chain.
+
+Theorem C01_src_skip_is_not_live : forall L f,
+  In f (live L) <-> In f L /\ eval (pv_of f (memN (get_id f) (badfilter_ids L)) false) new_skip = false.
+Proof. exact live_is_not_skipped. Qed.
+Print Assumptions C01_src_skip_is_not_live.
+
+Theorem C01_src_redirects_membership : new_pre = [(PAtom A_is_redirect, "redirects"%string)].
+Proof. exact new_pre_is_redirects. Qed.
+Print Assumptions C01_src_redirects_membership.
+
+Theorem C01_src_query_kinds :
+  map (fun s => match s with (_, l, k, _) => (l, k) end) tag_sites
+  = [("importants", "check"); ("filters_tagged", "check"); ("filters", "check"); ("exceptions", "check");
+     ("exceptions", "check"); ("redirects", "check_all"); ("csp", "check_all"); ("generic_hide", "check");
+     ("removeparam_filters", "check_all")]%string.
+Proof. exact query_kinds_are_model. Qed.
+Print Assumptions C01_src_query_kinds.
